@@ -8,6 +8,11 @@ correspondence (model = lean/GinjaxVerif/Model/C08.lean through driver ops c08.*
                                     exact on integer images without norm ties at the patch maximum
                                     (images with ties are compared too, but only as a diagnostic: the
                                     property does not pin the tie breaking)
+  * geom.max_pool(..., comparator_image=K) vs `maxPoolCmp` and geom.max_pool(..., use_norm=False),
+    GeometricImage.max_pool(P, use_norm=False), ml.MaxNormPool(P, use_norm=False) on (0,0) blocks vs
+    `maxPoolScalar` (Model/C08Max.lean), exact on integer inputs whose comparator has a unique maximiser in
+    every patch, plus near-tie comparators (1 + j 2^-18); both sides reject a comparator of the wrong shape and
+    use_norm=False on a k > 0 image
   * geom.norm                    vs `normSq`
   * ml.GroupNorm / ml.LayerNorm / ml.VectorNeuronNonlinear (all parameters perturbed) vs the model
     instantiated at Float (symmetric inverse square root by Jacobi iteration in the driver),
@@ -17,6 +22,12 @@ oracle (the property's own sentence on the real blocks, g. from harness/refs.py,
     types k <= 2, both parities, non-square extents, flags travelling with the axes; max-pool cases
     with a norm tie at a patch maximum are excluded (and counted); op(roll(x, t P)) == roll(op(x), t),
     unpool(roll(x, t)) == roll(unpool(x), t P)
+  * comparator pooling: max_pool(g.x, comparator = g.K) == g.max_pool(x, comparator = K) (K a true scalar,
+    unique maximiser per patch, x of every type (k,p), k <= 2) and the plain maximum of true scalars (0,0):
+    max_pool(g.x, use_norm=False) == g.max_pool(x, use_norm=False); both also under shifts by multiples of the
+    patch length.  The plain maximum of a PSEUDO-scalar (0,1) is outside the property's sentence (norm-based
+    pooling) and provably not equivariant (`maxPoolScalar_pseudoscalar_counterexample`); it is evaluated on the
+    real code and recorded in the notes, never flagged.
   * GroupNorm / LayerNorm / VectorNeuronNonlinear / MaxNormPool with every learnable leaf perturbed,
     default eps, group counts in the divisors of the channel count, types (0,0) (0,1) (1,0) (1,1)
     (and (2,0) (2,1) for VectorNeuronNonlinear), generic / sparse / constant / zero inputs:
@@ -169,6 +180,29 @@ class Impl:
     def maxp(self, block, D, P):
         return np.stack([np.asarray(self.geom.max_pool(D, self.jnp.array(img, dtype=self.jnp.float32), P))
                          for img in block])
+
+    def maxp_raw(self, block, D, P):
+        """geom.max_pool(..., use_norm=False) per channel"""
+        return np.stack([np.asarray(self.geom.max_pool(D, self.jnp.array(img, dtype=self.jnp.float32), P, False))
+                         for img in block])
+
+    def maxp_cmp(self, block, comp, D, P):
+        """geom.max_pool(..., comparator_image=K) per channel (one comparator image per channel)"""
+        return np.stack([np.asarray(self.geom.max_pool(D, self.jnp.array(img, dtype=self.jnp.float32), P,
+                                                       comparator_image=self.jnp.array(cmp, dtype=self.jnp.float32)))
+                         for img, cmp in zip(block, comp)])
+
+    def obj_maxp_raw(self, block, D, P, parity, flags):
+        outs = []
+        for img in block:
+            gi = self.geom.GeometricImage(self.jnp.array(img, dtype=self.jnp.float32), parity, D, tuple(flags))
+            outs.append(np.asarray(gi.max_pool(P, False).data))
+        return np.stack(outs)
+
+    def layer_maxp_raw(self, blocks: dict, D, P, flags):
+        x = equiv.to_multi_image({key: np.asarray(v, dtype=np.float32) for key, v in blocks.items()}, D, flags)
+        out = self.ml.MaxNormPool(P, use_norm=False)(x)
+        return {key: np.asarray(v) for key, v in out.items()}
 
     def unpool(self, block, D, P, parity, flags):
         outs = []
@@ -452,6 +486,260 @@ def run_pool(ctx: Ctx, stats):
 
 
 # ---------------------------------------------------------------------------------------------
+# pooling: the comparator_image path and the plain maximum of scalars (use_norm=False)
+
+
+def distinct_scalar_block(rng, C, dims):
+    """signed integer scalar images with pairwise distinct values (a unique maximiser in every patch)"""
+    n = int(np.prod(dims))
+    return np.stack([(rng.permutation(n) - int(rng.integers(0, n + 1))).reshape(dims) for _ in range(C)]).astype(np.int64)
+
+
+def select_by(block, comp, D, k, P):
+    """the property's own reading of the comparator path: per patch the pixel at which the comparator is
+    (uniquely) maximal"""
+    C = block.shape[0]
+    out_dims = tuple(n // P for n in block.shape[1:1 + D])
+    out = np.zeros((C,) + out_dims + (D,) * k, dtype=block.dtype)
+    for c in range(C):
+        idx = np.argmax(patch_view(comp[c], D, P), axis=-1)
+        for y in itertools.product(*[range(n) for n in out_dims]):
+            a = np.unravel_index(int(idx[y]), (P,) * D)
+            out[(c,) + y] = block[(c,) + tuple(yi * P + ai for yi, ai in zip(y, a))]
+    return out
+
+
+def cmp_pool_case(ctx: Ctx, im: Impl, D, dims, P, k, p, block, comp, flags, gs, stats, kind="distinct",
+                  scale=None):
+    """max_pool with comparator image `comp` (integers; `scale` = the float32-exact factor the comparator is
+    multiplied with, for the near-tie inputs)"""
+    C = block.shape[0]
+    desc = dict(pool_case_desc(D, dims, P, k, p, kind, C), path="comparator_image")
+    full = dict(desc, block=jarr(block), comparator=jarr(comp), comparator_scale=scale, is_torus=list(flags))
+    axes = tuple(range(1, 1 + D))
+
+    def run_impl(b, c):
+        cf = c.astype(np.float32) * np.float32(scale) if scale else c
+        return to_int(im.maxp_cmp(b, cf, D, P))
+
+    try:
+        base = run_impl(block, comp)
+    except Exception as e:  # noqa: BLE001
+        ctx.violation("oracle", "max_pool(comparator_image=...) raised on a well-formed input", dict(full, raised=repr(e)[:300]))
+        return
+    m = unarr(ctx.driver.call("c08.max_pool_comparator", d=D, P=P, block=jarr(block), comparator=jarr(comp)))
+    want = select_by(block, comp, D, k, P)
+    if not np.array_equal(m, want):
+        ctx.violation("correspondence", "Lean maxPoolCmp differs from the per-patch selection at the unique comparator "
+                                        "maximum (harness reference)", dict(full, op="max_pool_comparator"))
+    agree = base is not None and base.shape == m.shape and np.array_equal(base, m)
+    bad_g = None
+    for g in gs:
+        ident = is_identity(g)
+        ctx.case(("pool-cmp", desc, mat_list(g), block.tobytes().hex()[:40], comp.tobytes().hex()[:40]),
+                 (not ident) and P > 1, sample=dict(desc, g=mat_list(g)))
+        ctx.hist("cmp_pool_D", D); ctx.hist("cmp_pool_patch", P); ctx.hist("cmp_pool_kp", (k, p))
+        ctx.hist("cmp_pool_input", kind); ctx.hist("cmp_pool_square", len(set(dims)) == 1); ctx.hist("det", refs.det(g))
+        gB = refs.act_block(block, D, k, p, g)
+        gK = refs.act_block(comp, D, 0, 0, g)
+        try:
+            lhs = run_impl(gB, gK)
+        except Exception as e:  # noqa: BLE001
+            ctx.violation("oracle", "max_pool(comparator_image=...) raised on the transformed input",
+                          dict(full, g=mat_list(g), raised=repr(e)[:300]))
+            continue
+        stats["cmp_pool_checked"] += 1
+        rhs = None if base is None else refs.act_block(base, D, k, p, g)
+        if lhs is None or rhs is None or lhs.shape != rhs.shape or not np.array_equal(lhs, rhs):
+            bad_g = g
+            ctx.violation("oracle", "max_pool(g.x, comparator=g.K) != g.max_pool(x, comparator=K) (K a true scalar with a "
+                                    "unique maximiser in every patch)", dict(full, g=mat_list(g), det=refs.det(g),
+                                                                             op="max_pool_comparator"))
+            break
+    if not agree and bad_g is None:
+        ctx.violation("correspondence", "geom.max_pool(comparator_image=K) differs from Lean maxPoolCmp (unique comparator "
+                                        "maximiser in every patch)", dict(full, op="max_pool_comparator",
+                                                                          impl=None if base is None else jarr(base)))
+    # shifts by multiples of the patch length (image and comparator rolled together)
+    out_dims = [n // P for n in dims]
+    t = [int(ctx.rng.integers(0, max(1, n))) for n in out_dims]
+    ctx.case(("shift-cmp", desc, t, block.tobytes().hex()[:40]), any(t) and P > 1, sample=dict(desc, shift_in_patches=t))
+    sh = [ti * P for ti in t]
+    l = run_impl(np.roll(block, sh, axis=axes), np.roll(comp, sh, axis=axes))
+    r = None if base is None else np.roll(base, t, axis=axes)
+    if l is None or r is None or not np.array_equal(l, r):
+        ctx.violation("oracle", "max_pool(comparator_image=...) does not commute with a shift by a multiple of the patch "
+                                "length", dict(full, shift=t, op="max_pool_comparator"))
+
+
+def scalar_pool_case(ctx: Ctx, im: Impl, D, dims, P, block, flags, gs, stats, kind="distinct", scale=None):
+    """the plain maximum (use_norm=False) of a true scalar block (0,0) with a unique maximum in every patch"""
+    C = block.shape[0]
+    desc = dict(pool_case_desc(D, dims, P, 0, 0, kind, C), path="use_norm=False")
+    full = dict(desc, block=jarr(block), block_scale=scale, is_torus=list(flags))
+    axes = tuple(range(1, 1 + D))
+    inv = (1.0 / scale) if scale else 1.0
+
+    def run_impl(b):
+        x = b.astype(np.float32) * np.float32(scale) if scale else b
+        return to_int(im.maxp_raw(x, D, P).astype(np.float64) * inv)
+
+    try:
+        base = run_impl(block)
+    except Exception as e:  # noqa: BLE001
+        ctx.violation("oracle", "max_pool(use_norm=False) raised on a scalar image", dict(full, raised=repr(e)[:300]))
+        return
+    m = unarr(ctx.driver.call("c08.max_pool_scalar", d=D, P=P, block=jarr(block)))
+    m_raw = unarr(ctx.driver.call("c08.max_pool_raw", d=D, P=P, block=jarr(block)))
+    want = np.stack([patch_view(img, D, P).max(axis=-1) for img in block])
+    if not (np.array_equal(m, want) and np.array_equal(m_raw, want)):
+        ctx.violation("correspondence", "Lean maxPoolScalar / maxPoolRaw differ from the per-patch maximum",
+                      dict(full, op="max_pool_scalar"))
+    agree = base is not None and base.shape == m.shape and np.array_equal(base, m)
+    bad = False
+    for g in gs:
+        ident = is_identity(g)
+        ctx.case(("pool-scalar", desc, mat_list(g), block.tobytes().hex()[:48]), (not ident) and P > 1,
+                 sample=dict(desc, g=mat_list(g)))
+        ctx.hist("scalar_pool_D", D); ctx.hist("scalar_pool_patch", P); ctx.hist("scalar_pool_input", kind)
+        ctx.hist("det", refs.det(g))
+        gB = refs.act_block(block, D, 0, 0, g)
+        try:
+            lhs = run_impl(gB)
+        except Exception as e:  # noqa: BLE001
+            ctx.violation("oracle", "max_pool(use_norm=False) raised on the transformed scalar image",
+                          dict(full, g=mat_list(g), raised=repr(e)[:300]))
+            continue
+        stats["scalar_pool_checked"] += 1
+        rhs = None if base is None else refs.act_block(base, D, 0, 0, g)
+        if lhs is None or rhs is None or lhs.shape != rhs.shape or not np.array_equal(lhs, rhs):
+            bad = True
+            ctx.violation("oracle", "max_pool(g.x, use_norm=False) != g.max_pool(x, use_norm=False) on a true scalar block "
+                                    "with a unique maximum in every patch", dict(full, g=mat_list(g), op="max_pool_scalar"))
+            break
+    if not agree and not bad:
+        ctx.violation("correspondence", "geom.max_pool(use_norm=False) differs from Lean maxPoolScalar (unique maximum in "
+                                        "every patch)", dict(full, op="max_pool_scalar",
+                                                             impl=None if base is None else jarr(base)))
+    if scale is None:
+        # the object-level entry points of the same path
+        oi = to_int(im.obj_maxp_raw(block, D, P, 0, flags))
+        li = to_int(im.layer_maxp_raw({(0, 0): block}, D, P, flags)[(0, 0)])
+        if oi is None or not np.array_equal(oi, m):
+            ctx.violation("correspondence", "GeometricImage.max_pool(P, use_norm=False) differs from Lean maxPoolScalar",
+                          dict(full, op="GeometricImage.max_pool"))
+        if li is None or not np.array_equal(li, m):
+            ctx.violation("correspondence", "ml.MaxNormPool(P, use_norm=False) differs from Lean maxPoolScalar on a (0,0) "
+                                            "block", dict(full, op="MaxNormPool"))
+    out_dims = [n // P for n in dims]
+    t = [int(ctx.rng.integers(0, max(1, n))) for n in out_dims]
+    ctx.case(("shift-scalar", desc, t, block.tobytes().hex()[:40]), any(t) and P > 1, sample=dict(desc, shift_in_patches=t))
+    l = run_impl(np.roll(block, [ti * P for ti in t], axis=axes))
+    r = None if base is None else np.roll(base, t, axis=axes)
+    if l is None or r is None or not np.array_equal(l, r):
+        ctx.violation("oracle", "max_pool(use_norm=False) does not commute with a shift by a multiple of the patch length",
+                      dict(full, shift=t, op="max_pool_scalar"))
+
+
+def run_pool_extra(ctx: Ctx, stats):
+    im = Impl()
+    rng = ctx.rng
+    for D in (2, 3):
+        gs_all = equiv.group(D) if (D == 2 or ctx.tier == "thorough") else group_elements(ctx, D)
+        cfgs = [c for c in POOL_CFG[D] if c[1] > 1]
+        if ctx.tier == "quick":
+            keep = 3 if D == 2 else 2
+            idx = sorted(rng.choice(len(cfgs), size=keep, replace=False).tolist())
+            cfgs = [cfgs[i] for i in idx]
+            # always one non-square extent with several patches along two axes
+            must = ((4, 6), 2) if D == 2 else ((4, 2, 6), 2)
+            if must not in cfgs:
+                cfgs[-1] = must
+        for ci, (dims, P) in enumerate(cfgs):
+            kmax = 2 if (D == 2 or int(np.prod(dims)) <= 16) else 1
+            kps = [(k, p) for k in range(kmax + 1) for p in (0, 1)]
+            if ctx.tier == "quick":
+                pick = rng.choice(len(kps), size=2, replace=False)
+                kps = [kps[i] for i in pick]
+            flags = tuple(bool(b) for b in rng.integers(0, 2, size=D))
+            for (k, p) in kps:
+                C = int(rng.integers(1, 3))
+                block = rng.integers(-6, 7, size=(C,) + tuple(dims) + (D,) * k).astype(np.int64)
+                comp = distinct_scalar_block(rng, C, dims)
+                cmp_pool_case(ctx, im, D, dims, P, k, p, block, comp, flags, gs_all, stats)
+            # comparator = the squared norm: the norm path as a special case (exact on integers)
+            k, p = kps[0]
+            block = tie_free_block(rng, 1, dims, D, k, P)
+            m_norm = unarr(ctx.driver.call("c08.max_pool", d=D, P=P, block=jarr(block)))
+            m_cmp = unarr(ctx.driver.call("c08.max_pool_comparator", d=D, P=P, block=jarr(block),
+                                          comparator=jarr(norm_sq(block, D, k))))
+            i_cmp = to_int(im.maxp_cmp(block, norm_sq(block, D, k), D, P))
+            ctx.case(("pool-cmp-norm", D, list(dims), P, k, block.tobytes().hex()[:40]), False)
+            if not np.array_equal(m_norm, m_cmp) or i_cmp is None or not np.array_equal(i_cmp, m_norm):
+                ctx.violation("correspondence", "max_pool with the squared norm as comparator_image differs from the norm "
+                                                "path (Lean maxPool_eq_comparator_norm)",
+                              {"D": D, "dims": list(dims), "patch_len": P, "k": k, "block": jarr(block)})
+            scalar_pool_case(ctx, im, D, dims, P, distinct_scalar_block(rng, int(rng.integers(1, 3)), dims), flags,
+                             gs_all, stats)
+    # near ties: comparator / scalar values (2^18 + j) 2^-18 with distinct j, signed (exact in float32)
+    near = ((2, (4, 4), 2), (2, (6, 3), 3), (3, (2, 4, 2), 2)) if ctx.tier == "quick" else \
+        ((2, (4, 4), 2), (2, (4, 6), 2), (2, (6, 3), 3), (3, (2, 4, 2), 2), (3, (4, 2, 6), 2))
+    for D, dims, P in near:
+        gs = group_elements(ctx, D)[:6]
+        n = int(np.prod(dims))
+        flags = (True,) * D
+        comp = np.stack([((1 << 18) + rng.permutation(n).reshape(dims)) * rng.choice([-1, 1], size=dims)]).astype(np.int64)
+        k, p = [(1, 0), (0, 1), (1, 1), (2, 0)][int(rng.integers(0, 4))]
+        block = rng.integers(-6, 7, size=(1,) + tuple(dims) + (D,) * k).astype(np.int64)
+        cmp_pool_case(ctx, im, D, dims, P, k, p, block, comp, flags, gs, stats, kind="near_tie", scale=2.0 ** -18)
+        sc = np.stack([((1 << 18) + rng.permutation(n).reshape(dims)) * rng.choice([-1, 1], size=dims)]).astype(np.int64)
+        scalar_pool_case(ctx, im, D, dims, P, sc, flags, gs, stats, kind="near_tie", scale=2.0 ** -18)
+    # malformed: both sides reject a comparator of the wrong shape and use_norm=False on a k > 0 image
+    for D, dims, P in ((2, (4, 4), 2), (3, (2, 2, 2), 2)):
+        block = rng.integers(-3, 4, size=(1,) + dims).astype(np.int64)
+        wrong = rng.integers(-3, 4, size=(1,) + dims[:-1] + (dims[-1] + P,)).astype(np.int64)
+        vec = rng.integers(-3, 4, size=(1,) + dims + (D,)).astype(np.int64)
+        for what, model_call, impl_call in (
+            ("comparator_image of the wrong shape",
+             lambda: ctx.driver.call("c08.max_pool_comparator", d=D, P=P, block=jarr(block), comparator=jarr(wrong)),
+             lambda: im.maxp_cmp(block, wrong, D, P)),
+            ("use_norm=False on a vector image",
+             lambda: ctx.driver.call("c08.max_pool_scalar", d=D, P=P, block=jarr(vec)),
+             lambda: im.maxp_raw(vec, D, P)),
+        ):
+            try:
+                model_call()
+                model_rej = False
+            except DriverReject:
+                model_rej = True
+            try:
+                impl_call()
+                impl_rej = False
+            except Exception:  # noqa: BLE001
+                impl_rej = True
+            ctx.case(("malformed-maxpool", D, what), False)
+            ctx.hist("malformed", what)
+            if model_rej != impl_rej:
+                ctx.violation("correspondence", f"max_pool, {what}: code and model disagree on rejection",
+                              {"D": D, "dims": list(dims), "patch_len": P, "impl_rejects": impl_rej,
+                               "model_rejects": model_rej})
+    # scope note (never a violation): the plain maximum of a PSEUDO-scalar image is reachable through
+    # GeometricImage.max_pool(P, use_norm=False) / ml.MaxNormPool(P, use_norm=False) and is not equivariant under
+    # reflections (Lean: maxPoolScalar_pseudoscalar_counterexample); the property speaks of norm-based pooling
+    A = np.array([[[1, 2], [3, 4]]], dtype=np.int64)
+    g = np.array([[-1, 0], [0, 1]], dtype=np.int64)
+    try:
+        lhs = to_int(im.obj_maxp_raw(refs.act_block(A, 2, 0, 1, g), 2, 2, 1, (True, True)))
+        rhs = refs.act_block(to_int(im.obj_maxp_raw(A, 2, 2, 1, (True, True))), 2, 0, 1, g)
+        m_l = unarr(ctx.driver.call("c08.max_pool_scalar", d=2, P=2, block=jarr(refs.act_block(A, 2, 0, 1, g))))
+        stats["raw_pseudo_lhs"], stats["raw_pseudo_rhs"] = int(lhs.reshape(-1)[0]), int(rhs.reshape(-1)[0])
+        stats["raw_pseudo_model_lhs"] = int(m_l.reshape(-1)[0])
+        stats["raw_pseudo_accepted"] = 1
+    except Exception:  # noqa: BLE001
+        stats["raw_pseudo_accepted"] = 0
+
+
+# ---------------------------------------------------------------------------------------------
 # normalisation / nonlinearity blocks
 
 ACTS = ("relu", "tanh", "leaky_relu")
@@ -722,7 +1010,8 @@ def run(ctx: Ctx):
         "pooling cases: (integer block, patch length, type (k,p), g) with g != identity, non-constant block, patch "
         "length > 1; shift cases: non-zero shift of a non-constant block; block cases: (real layer with every "
         "learnable leaf perturbed by N(0,0.5), input, g) with g != identity and a generic or sparse input "
-        "(constant / zero inputs and the malformed stream count as trivial); distinct by canonical JSON of the case"
+        "(constant / zero inputs and the malformed stream count as trivial); comparator / plain-maximum pooling cases: "
+        "g != identity (resp. a non-zero shift) and patch length > 1; distinct by canonical JSON of the case"
     )
     ctx.assumptions = [
         "eigh is represented in the model by a conjugation-equivariant matrix function S (hypothesis hS, satisfied by "
@@ -730,6 +1019,9 @@ def run(ctx: Ctx):
         "inputs whose measured float32 noise amplification makes a 1e-3 verdict impossible are skipped and counted",
         "max pooling is claimed (and checked) only when the maximal norm of every patch is attained at a unique pixel; "
         "excluded cases are counted in maxpool_excluded_ties",
+        "comparator pooling is claimed for comparators that transform as true scalars (0,0) and have a unique maximiser "
+        "in every patch; the plain maximum (use_norm=False) only for true scalar blocks (0,0): on pseudo-scalars it is "
+        "not equivariant (Lean counterexample) and outside the property's sentence, recorded in the notes only",
         "average pooling is exact in float32 only for power-of-two patch volumes; other patch lengths are compared "
         "within 1e-5 relative",
     ]
@@ -743,6 +1035,8 @@ def run(ctx: Ctx):
     run_stats(ctx, stats)
     run_d4_witness(ctx, stats)
     run_pool(ctx, stats)
+    t1a = time.time()
+    run_pool_extra(ctx, stats)
     t1 = time.time()
     run_blocks(ctx, stats)
     t2 = time.time()
@@ -758,5 +1052,14 @@ def run(ctx: Ctx):
         "accepted_by_noise_floor": int(stats["accepted_by_noise_floor"]),
         "worst_equivariance_defect_seen": float(stats["worst_defect"]),
         "seconds_pooling": round(t1 - t0, 1),
+        "seconds_pooling_comparator_and_scalar_paths": round(t1 - t1a, 1),
+        "comparator_pool_cases_checked": int(stats["cmp_pool_checked"]),
+        "scalar_plain_max_cases_checked": int(stats["scalar_pool_checked"]),
+        "scope_note_plain_max_of_pseudoscalar": (
+            "GeometricImage([[1,2],[3,4]], parity=1).max_pool(2, use_norm=False) under g = diag(-1,1): "
+            f"max_pool(g.x) = {int(stats['raw_pseudo_lhs'])}, g.max_pool(x) = {int(stats['raw_pseudo_rhs'])} "
+            f"(Lean model on g.x: {int(stats['raw_pseudo_model_lhs'])}); outside the property's sentence "
+            "(norm-based pooling), documented by maxPoolScalar_pseudoscalar_counterexample, not flagged"
+            if stats["raw_pseudo_accepted"] else "use_norm=False on a pseudo-scalar image was rejected by the code"),
         "seconds_blocks": round(t2 - t1, 1),
     }
